@@ -517,6 +517,12 @@ fn corruptions(g: &FfCase, p: &Parts, full: bool) -> Vec<FfCase> {
         // new parent with an even amount and the new coin re-derived from it
         let np2 = RCoin { amount: even_near(np.amount), ..np };
         add("new-parent/amount-even-reseated", pz.clone(), sol.clone(), c, RCoin { parent: np2.id(), ..nc }, np2);
+        // only the new parent carries another puzzle hash (its inner puzzle changed in the spend that
+        // created the new coin); the new coin is re-derived from it and keeps the singleton's hash
+        let np3 = RCoin { ph: px, ..np };
+        add("new-parent/puzzle-hash-reseated", pz.clone(), sol.clone(), c, RCoin { parent: np3.id(), ..nc }, np3);
+        // coin and new coin agree on another puzzle hash, the new parent keeps the real one
+        add("coin+new-coin/other-puzzle-hash", pz.clone(), sol.clone(), RCoin { ph: px, ..c }, RCoin { ph: px, ..nc }, np);
         // both target coins carry another puzzle hash, consistently
         let (nc2, np2) = reseat(px);
         add("target/other-puzzle-hash-reseated", pz.clone(), sol.clone(), c, nc2, np2);
@@ -1206,7 +1212,7 @@ fn run_dedup(rep: &Report) {
 
 fn run(rep: &Report) {
     rep.set_rule(
-        "fast-forward: singleton spends = the real top layer curried (own curry) with launcher id {a1 | thorough +a2} x inner puzzle {`1` with the conditions in the inner solution (re-creates itself), (q . conds)} x 10-13 condition sets (odd CREATE_COIN of the coin amount / of 1, + even output, + time locks, + AGG_SIG_ME/UNSAFE, + memo/REMARK/announcements, + inner ASSERT_MY_AMOUNT / _PUZZLEHASH / _COIN_ID / _PARENT_ID, melt -113, no output, two odd outputs) x coin amount {1,3,2^63+1 | thorough +0x81,2^64-1} x lineage (parent's parent {c1 | thorough +c2} x parent amount {1,3,2^63+1}), plus the 2 recorded ff-tests/*.spend; rebase targets = new parent's parent {ab..,00..,ff..,the original one} x new parent amount x new coin amount ({1,3,2^63+1} quick, {1,3,0x81,2^64-1} thorough, {own,1,3,5} for the recorded spends); every genuine (spend,target) pair is also put through 34 corruption classes (each field of the three coins, each lineage/solution field, Eve proof, struct mod hash, curried program, launcher id/hash, inner puzzle, arity, bare inner puzzle; plain and 're-seated' = all dependent hashes re-derived so that exactly one relation is broken) — quick: all classes on every third target, thorough: the 14 coin-side classes on every target and the 20 solution/puzzle-side classes on every fourth target. dedup: one coin (identity puzzle, parent 11.., amount {0,2,300}) next to a helper spend of 10^6 mojos {no conditions, sends a message to the coin, receives a message from it}; condition lists = every list of <=2 of the 79 letters plus every list of 3 of the 67 main letters (quick: of the 24 core letters); letters: CREATE_COIN with hint absent/nil/empty/4 zero bytes/one byte 01 (= a following REMARK's image)/32/33 bytes/pair/atom memos/extra memo, amount|hint atom-boundary splits ([0102][03] vs [01][0203]), second puzzle hash, extra argument, redundant zero; RESERVE_FEE/REMARK boundary splits and REMARK shapes; announcements; ASSERT_MY_*; every time lock with two values and tautologies; all 8 AGG_SIG_*; SEND/RECEIVE_MESSAGE to self and to/from the helper; unknown / SOFTFORK / two-byte opcodes; each list run with and without COMPUTE_FINGERPRINT. distinct = distinct (class, puzzle, solution, three coins) fast-forward cases + distinct (scene, fingerprint) groups of eligible spends",
+        "fast-forward: singleton spends = the real top layer curried (own curry) with launcher id {a1 | thorough +a2} x inner puzzle {`1` with the conditions in the inner solution (re-creates itself), (q . conds)} x 10-13 condition sets (odd CREATE_COIN of the coin amount / of 1, + even output, + time locks, + AGG_SIG_ME/UNSAFE, + memo/REMARK/announcements, + inner ASSERT_MY_AMOUNT / _PUZZLEHASH / _COIN_ID / _PARENT_ID, melt -113, no output, two odd outputs) x coin amount {1,3,2^63+1 | thorough +0x81,2^64-1} x lineage (parent's parent {c1 | thorough +c2} x parent amount {1,3,2^63+1}), plus the 2 recorded ff-tests/*.spend; rebase targets = new parent's parent {ab..,00..,ff..,the original one} x new parent amount x new coin amount ({1,3,2^63+1} quick, {1,3,0x81,2^64-1} thorough, {own,1,3,5} for the recorded spends); every genuine (spend,target) pair is also put through 36 corruption classes (each field of the three coins, each lineage/solution field, Eve proof, struct mod hash, curried program, launcher id/hash, inner puzzle, arity, bare inner puzzle; plain and 're-seated' = all dependent hashes re-derived so that exactly one relation is broken) — quick: all classes on every third target, thorough: the 16 coin-side classes on every target and the 20 solution/puzzle-side classes on every fourth target. dedup: one coin (identity puzzle, parent 11.., amount {0,2,300}) next to a helper spend of 10^6 mojos {no conditions, sends a message to the coin, receives a message from it}; condition lists = every list of <=2 of the 79 letters plus every list of 3 of the 67 main letters (quick: of the 24 core letters); letters: CREATE_COIN with hint absent/nil/empty/4 zero bytes/one byte 01 (= a following REMARK's image)/32/33 bytes/pair/atom memos/extra memo, amount|hint atom-boundary splits ([0102][03] vs [01][0203]), second puzzle hash, extra argument, redundant zero; RESERVE_FEE/REMARK boundary splits and REMARK shapes; announcements; ASSERT_MY_*; every time lock with two values and tautologies; all 8 AGG_SIG_*; SEND/RECEIVE_MESSAGE to self and to/from the helper; unknown / SOFTFORK / two-byte opcodes; each list run with and without COMPUTE_FINGERPRINT. distinct = distinct (class, puzzle, solution, three coins) fast-forward cases + distinct (scene, fingerprint) groups of eligible spends",
     );
     rep.assume("fast_forward_singleton does not run the puzzle: for constructed spends whose original does not run (no odd output, two odd outputs) only acceptance/refusal and the shape of the rewrite are checked");
     rep.assume("run_spendbundle acceptance of the rewritten spend is demanded only when the original is accepted on the old coin and every ASSERT_MY_* of the rewritten output holds for the new coin (inner conditions bound to the old coin are the business of ELIGIBLE_FOR_FF, not of the rewrite); two funding spends of 2^64-1 mojos each are added so that value conservation cannot reject");
